@@ -27,13 +27,13 @@ def run(prog, chk):
         "the instance location is the default location overridden by the instance's, normalised once and used for kerning, info and every glyph (R19.8)",
     ]
     chk.not_decided += ["interpolation arithmetic (fontTools.varLib / fontMath)", "rounded values"]
-    r191(prog, chk)
-    r192(prog, chk)
-    r193(prog, chk)
-    r194(prog, chk)
-    r196(prog, chk)
-    r197(prog, chk)
-    r198(prog, chk)
+    chk.guard(r191, prog, chk)
+    chk.guard(r192, prog, chk)
+    chk.guard(r193, prog, chk)
+    chk.guard(r194, prog, chk)
+    chk.guard(r196, prog, chk)
+    chk.guard(r197, prog, chk)
+    chk.guard(r198, prog, chk)
 
 
 # ----------------------------------------------------------------------------- R19.1
